@@ -127,6 +127,9 @@ func (e *Env) Tr(x *Expr) TTerm {
 			return TTerm{S: x.Name, Sort: "Int"}
 		case "wm0":
 			return TTerm{S: e.wm0, Sort: "Int"}
+		case "ppos":
+			e.g.Family("G_pos", "Int")
+			return TTerm{S: e.famOf("G_pos"), Sort: "Int"}
 		case "heap":
 			v, d, c := e.mapFams()
 			sp, sv := e.scopeFams()
@@ -587,6 +590,24 @@ func (e *Env) call(x *Expr) TTerm {
 			return B(fmt.Sprintf("(= (itype %s) %d)", a[0].S, id))
 		}
 		return e.fail("isType needs (value, \"type\")")
+	case "const":
+		// const("pkg.Name"): value of an integer constant of the repository
+		if len(x.Args) == 1 && x.Args[0].Op == "str" {
+			q := x.Args[0].Name
+			i := strings.LastIndex(q, ".")
+			for _, p := range e.g.Pkgs {
+				if i > 0 && (p.Pkg.Name() == q[:i] || p.Pkg.Path() == q[:i]) {
+					if c, ok := p.Pkg.Scope().Lookup(q[i+1:]).(*types.Const); ok {
+						v := c.Val().ExactString()
+						if strings.HasPrefix(v, "-") {
+							v = "(- " + v[1:] + ")"
+						}
+						return I(v)
+					}
+				}
+			}
+			return e.fail("unknown constant %q", q)
+		}
 	case "repoErr":
 		// the error value is one the repository itself creates (a sentinel or one of its error types)
 		if need(1) {
@@ -669,6 +690,14 @@ func (e *Env) call(x *Expr) TTerm {
 		return TTerm{S: "(" + al[0] + " " + strings.Join(as, " ") + ")", Sort: al[1]}
 	}
 	switch x.Name {
+	case "tokT":
+		if need(1) {
+			e.g.Family("G_toks", "(Array Int Int)")
+			return TTerm{S: "(select " + e.famOf("G_toks") + " " + a[0].S + ")", Sort: "Int"}
+		}
+	case "toks":
+		e.g.Family("G_toks", "(Array Int Int)")
+		return TTerm{S: e.famOf("G_toks"), Sort: "(Array Int Int)"}
 	case "sparent":
 		if need(2) {
 			return TTerm{S: "(select (hsp " + a[0].S + ") " + a[1].S + ")", Sort: "Int"}
